@@ -118,8 +118,13 @@ where
                     Err(_) = keep_rx => (),
 
                     Ok(RFnRequest {argument, result_tx}) = request_rx => {
-                        let result = fun(argument).await;
-                        let _ = result_tx.send(result);
+                        tokio::select! {
+                            biased;
+                            () = result_tx.closed() => (),
+                            result = fun(argument) => {
+                                let _ = result_tx.send(result);
+                            }
+                        }
                     }
                 }
             }
